@@ -42,6 +42,20 @@ layout) with both modes new and a layout object (None = shared default, another 
 as docs/manual/textlayout.rst describes), contents = <rotated item list> on Pile/Columns/GridFlow, ListBox.body = <new
 walker of the same class | plain list> over the rotated items, BarGraph.set_segment_attributes.
 
+Container content edits and list-walker edits, as a list: Pile/Columns/GridFlow.contents and the body of a ListBox on a
+Simple(Focus)ListWalker are list objects (MonitoredList / MonitoredFocusList); the manual: "When this object or its contents are
+modified the widget is automatically flagged to be redrawn", SimpleListWalker: "it can be treated as a list. Changes made to
+this object (when it is treated as a list) are detected automatically".  Op "list" performs any in-place list method or operator on the list of the j-th such widget (list_ops /
+LIST_METHODS): append, extend (also of nothing), +=, pop() / pop(i) / pop(-i), remove(item), reverse(), sort(key=, reverse=)
+into any order (the key ranks the items by a permutation of their positions, so also orders that leave the focused item
+where it is), *= 1 / *= 0, [i:j] = (0-2 new items or the same items reversed), del [i:j], extended-slice assignment
+(steps 2, 3, -1, -2: new items or the same items rotated) and deletion, clear(), [-i] = and the swap idiom
+a[i], a[j] = a[j], a[i] - whenever the resulting list is one the container can display (length bounds, a box Pile keeps a
+WEIGHT item, a flow Columns a flow column, no widget object in two slots).  A deterministic sweep (_list_sweep) runs, as
+hist cases, every such method with every argument shape on Pile (flow / box), Columns, GridFlow and ListBox (both
+walkers) of 0/1..4 (thorough 5) distinct Text / Edit items with the focus on every position, bare (rendered with and
+without focus) and inside a LineBox: render, ONE list edit, render.
+
 After every op the root is rendered in both worlds at the
 current view (size, focus) and compared:
 
@@ -80,6 +94,8 @@ Deliberately weak readings:
 from __future__ import annotations
 
 import gc
+import math
+import operator
 import warnings
 
 from hypothesis import strategies as st
@@ -118,12 +134,19 @@ RULE = (
     "focus_position= + contents= (whole list, rotated), GridFlow.cell_width=, Frame header/body/footer=/focus_position=, Overlay contents[0]/[1]= "
     "and set_overlay_parameters, ListBox set_focus/set_focus_valign/focus_position=/body= (new walker or plain list over "
     "the rotated items), walker insert/delete/replace, change_focus/shift_focus/make_cursor_visible/scroll keys/wheel at the size it was last rendered with "
-    "(ops 'lb'/'probe' address the j-th ListBox / probe), probe set_value, Scrollable.set_scrollpos, ScrollBar side/width; drop all held canvases + gc.collect(1). ~20% of "
+    "(ops 'lb'/'probe' address the j-th ListBox / probe), probe set_value, Scrollable.set_scrollpos, ScrollBar side/width; op 'list': any in-place list "
+    "method / operator on the contents list of the j-th Pile/Columns/GridFlow or the walker list of the j-th ListBox (append, extend, +=, pop()/pop(i)/pop(-i), "
+    "remove, reverse, sort(key, reverse) into any permutation, *= 1/0, [i:j]= new items | same items reversed, del [i:j], extended-slice assignment / deletion "
+    "with steps 2,3,-1,-2, clear, [-i]=, swap a[i],a[j]=a[j],a[i]) when the container can display the result; drop all held canvases + gc.collect(1). ~20% of "
     "the ops are not followed by the comparison render; 1 in 7 list elements is a correlated pattern (change "
-    "without redraw / other view / change again; view A, view B, change, view A; three changes of one widget; a node rendered on its own, another view, a change of that node). "
+    "without redraw / other view / change again; view A, view B, change, view A; three changes of one widget; a node rendered on its own, another view, a change of that node; "
+    "two list edits of one container, the first without redraw). Before the Hypothesis campaign a deterministic sweep (exhaustive 'list-methods', ~21000 hist cases quick): "
+    "{Pile flow, Pile box, Columns, GridFlow, ListBox on SimpleFocusListWalker / SimpleListWalker} x length 0|1..4 (5 thorough) of distinct Text/Edit items x every focus "
+    "position x {bare root rendered focused, bare unfocused, inside a LineBox} x every list method x its whole argument domain for that length (all i<=j, all permutations "
+    "(<=24 quick, 120 thorough) x reverse, all extended slices, all swaps): render, one list edit, render. "
     "Oracle after every op: root rendering of A == B (content runs, cursor), rows equal, confirmed on the same "
     "tree; every held canvas (and every finalized canvas below it) unchanged; canvas mutators raise. Non-trivial: a mutation of a strict descendant of the "
-    "root is followed by the comparison render of the root at a (size, focus) that was rendered before the "
+    "root (or a list edit of the root's own contents / walker) is followed by the comparison render of the root at a (size, focus) that was rendered before the "
     "mutation while the canvases were still held; distinct by hash of the case."
 )
 ASSUMPTIONS = [
@@ -136,6 +159,10 @@ ASSUMPTIONS = [
     "the alternative spellings are the ones urwid itself documents or still ships as deprecation shims (DeprecationWarning "
     "is recorded and ignored); the user text layout (StandardTextLayout subclass swapping left/right) is pure and stateless, "
     "as the manual requires of a layout object",
+    "contents lists and Simple(Focus)ListWalker are documented as lists to be edited in place (docs/manual/widgets.rst: 'When this object or its contents are modified the widget is automatically flagged to be redrawn'; "
+    "Pile/Columns/GridFlow.contents: 'as a list of (widget, options) tuples'; SimpleListWalker: 'it can be treated as a list. Changes made to this object ... are "
+    "detected automatically and will cause ListBox objects using this list walker to be updated'); list edits keep to lists the container can display (non-empty Pile/Columns, a WEIGHT item in a box Pile, a flow column in a flow Columns, each "
+    "widget object in one slot only: *= n with n >= 2 is not generated); sort keys are pure functions of the item",
     "a history in which urwid emits WidgetWarning (unsupported sizing combination) is mis-built and discarded; an "
     "op raising the same exception type in both worlds ends the history without verdict; a FAILING history in which "
     "a widget was handed a size with no room for its borders/margins or a dimension < 1 (gen_widgets.starved, as "
@@ -1051,6 +1078,206 @@ def _assign_all(w, cont, b):
 
 
 # ---------------------------------------------------------------------------------------------
+# container content edits / list-walker edits: every mutating method of the list type
+#
+# Pile/Columns/GridFlow.contents and the body of a ListBox on a SimpleListWalker / SimpleFocusListWalker ARE lists
+# (urwid.MonitoredList / MonitoredFocusList: "this class can trigger a callback any time its contents are changed");
+# the manual: "When this object or its contents are modified the widget is automatically flagged to be redrawn".  The mutator tables above use insert / del [i] / [i] = .
+# Here: each in-place list method and operator, with every argument shape the list type accepts.  Items are
+# (widget, options) for the containers and widgets for a ListBox.  An edit is performed only if the resulting list is
+# one the container can display (same rules as contents.insert / contents.delete above: length bounds, a box Pile keeps
+# a WEIGHT item, a flow Columns keeps a flow column, no widget twice).
+
+LIST_METHODS = ["append", "extend", "+=", "pop()", "pop(i)", "remove", "reverse", "sort", "*=", "[i:j]=", "del [i:j]",
+                "[ext. slice]=", "del [ext. slice]", "clear", "[-i]=", "swap"]
+EXT_SLICES = [slice(0, None, 2), slice(1, None, 2), slice(None, None, -1), slice(None, None, 3), slice(None, None, -2), slice(1, None, 3)]
+LIST_BEARING = (urwid.Pile, urwid.Columns, urwid.GridFlow, urwid.ListBox)
+
+
+def _perm(n, k):
+    """the (k mod n!)-th permutation of range(n) in lexicographic order (0: the identity)"""
+    pool, out = list(range(n)), []
+    k %= math.factorial(n)
+    for i in range(n, 0, -1):
+        f = math.factorial(i - 1)
+        out.append(pool.pop(k // f))
+        k %= f
+    return out
+
+
+def _sl(s):
+    f = lambda x: "" if x is None else str(x)  # noqa: E731
+    return f"{f(s.start)}:{f(s.stop)}" + ("" if s.step is None else f":{s.step}")
+
+
+def list_ops(w, mode, build):
+    """[(name, fn(b, c) -> description | None)] aligned with LIST_METHODS, or None if `w` has no such list.
+    build(slot, k, t) -> the t-th new widget of this edit (distinct texts)"""
+    if isinstance(w, urwid.ListBox):
+        cont, attr, lo, hi = w.body, "body", 0, 8
+        if not isinstance(cont, urwid.MonitoredList):
+            return None
+        new = lambda k, t=0: build("flow", k, t)  # noqa: E731
+        wid = lambda it: it  # noqa: E731
+        ok = lambda items: True  # noqa: E731
+    elif isinstance(w, urwid.Pile):
+        cont, attr, lo, hi = w.contents, "contents", 1, 6
+
+        def new(k, t=0):
+            if mode == "fixed":
+                return (build("fixed", k, t), w.options("pack"))
+            if k % 3 == 0:
+                return (build("flow", k, t), w.options("pack"))
+            if k % 3 == 1:
+                return (build("box", k, t), w.options("given", 1 + k % 3))
+            return (build("box" if mode == "box" else "flow", k, t), w.options("weight", 1 + k % 3))
+
+        wid = lambda it: it[0]  # noqa: E731
+        ok = lambda items: mode != "box" or any(o[0] == WEIGHT for _w, o in items)  # noqa: E731
+    elif isinstance(w, urwid.Columns):
+        cont, attr, lo, hi = w.contents, "contents", 1, 6
+
+        def new(k, t=0):
+            if mode == "fixed":
+                return (build("fixed", k, t), w.options("pack")) if k % 3 else (build("flow", k, t), w.options("given", 2 + k % 6))
+            if mode == "box":
+                return (build("box", k, t), w.options(["weight", "given"][k % 2], 1 + k % 4, bool(k % 3 == 2)))
+            if k % 3 == 0:
+                return (build("box", k, t), w.options("given", 1 + k % 4, True))
+            if k % 3 == 1:
+                return (build("flow", k, t), w.options("weight", 1 + k % 3))
+            return (build("flow", k, t), w.options("given", 2 + k % 6))
+
+        wid = lambda it: it[0]  # noqa: E731
+        ok = lambda items: mode != "flow" or any(not o[2] for _w, o in items)  # noqa: E731
+    elif isinstance(w, urwid.GridFlow):
+        cont, attr, lo, hi = w.contents, "contents", 0, 7
+        new = lambda k, t=0: (build("flow", k, t), w.options())  # noqa: E731
+        wid = lambda it: it[0]  # noqa: E731
+        ok = lambda items: True  # noqa: E731
+    else:
+        return None
+    n = len(cont)
+
+    def run(desc, op):
+        """perform op(list) if the container can display the result (tried on a plain copy first)"""
+        trial = list(cont)
+        op(trial)
+        if not lo <= len(trial) <= hi or not ok(trial) or len({id(wid(it)) for it in trial}) != len(trial):
+            return None
+        op(cont)
+        return f"{attr}{desc}"
+
+    def news(k, count):
+        return [new(k + t, t) for t in range(count)]
+
+    def append(b, c):
+        item = new(c)
+        return run(f".append(new #{c})", lambda lst: lst.append(item))
+
+    def extend(b, c):
+        items = news(c, b % 3)  # also extend([])
+        return run(f".extend({b % 3} new from #{c})", lambda lst: lst.extend(items))
+
+    def iadd(b, c):
+        items = news(c, b % 3)
+        return run(f" += {b % 3} new from #{c}", lambda lst: operator.iadd(lst, items))
+
+    def pop_last(b, c):
+        return run(".pop()", lambda lst: lst.pop()) if n else None
+
+    def pop(b, c):
+        if not n:
+            return None
+        i = b % n - (n if c % 2 else 0)
+        return run(f".pop({i})", lambda lst: lst.pop(i))
+
+    def remove(b, c):
+        if not n:
+            return None
+        item = cont[b % n]
+        return run(f".remove(item {b % n})", lambda lst: lst.remove(item))
+
+    def reverse(b, c):
+        return run(".reverse()", lambda lst: lst.reverse())
+
+    def sort(b, c):
+        # any order: the key ranks the items by a permutation of their current positions
+        perm = _perm(n, b + 48 * (c // 2))
+        rank = {id(wid(cont[p])): r for r, p in enumerate(perm)}
+        rev = bool(c % 2)
+        return run(f".sort(key=rank in {perm}, reverse={rev})", lambda lst: lst.sort(key=lambda it: rank[id(wid(it))], reverse=rev))
+
+    def imul(b, c):
+        # *= 1 (nothing changes, the list reports a modification) and *= 0 (emptied); larger factors would put
+        # one widget object into several slots
+        f = [1, 0][b % 2]
+        return run(f" *= {f}", lambda lst: operator.imul(lst, f))
+
+    def setslice(b, c):
+        i = b % (n + 1)
+        j = i + (b // (n + 1)) % (n - i + 1)
+        if (c // 3) % 2 and j - i >= 2:
+            items = list(cont[i:j])[::-1]  # the same items in another order
+            return run(f"[{i}:{j}] = the same items reversed", lambda lst: lst.__setitem__(slice(i, j), items))
+        items = news(c, c % 3)
+        return run(f"[{i}:{j}] = {c % 3} new from #{c}", lambda lst: lst.__setitem__(slice(i, j), items))
+
+    def delslice(b, c):
+        i = b % (n + 1)
+        j = i + (b // (n + 1)) % (n - i + 1)
+        return run(f": del [{i}:{j}]", lambda lst: lst.__delitem__(slice(i, j)))
+
+    def setext(b, c):
+        s = EXT_SLICES[b % len(EXT_SLICES)]
+        idx = list(range(n)[s])
+        if not idx:
+            return None
+        if c % 2:
+            old = [cont[x] for x in idx]
+            items = old[1:] + old[:1]  # the same items rotated by one
+            return run(f"[{_sl(s)}] = the same items rotated", lambda lst: lst.__setitem__(s, items))
+        items = news(c, len(idx))
+        return run(f"[{_sl(s)}] = {len(idx)} new from #{c}", lambda lst: lst.__setitem__(s, items))
+
+    def delext(b, c):
+        s = EXT_SLICES[b % len(EXT_SLICES)]
+        if not range(n)[s]:
+            return None
+        return run(f": del [{_sl(s)}]", lambda lst: lst.__delitem__(s))
+
+    def clear(b, c):
+        return run(".clear()", lambda lst: lst.clear())
+
+    def setneg(b, c):
+        if not n:
+            return None
+        i = -1 - b % n
+        old = cont[i]
+        item = new(c) if isinstance(w, (urwid.ListBox, urwid.GridFlow)) else None
+        if item is None:
+            # same slot, same options: a new widget for the sizing mode of that slot
+            slot = kids(w, mode)[i][1]
+            item = (build(slot, c, 0), old[1])
+        return run(f"[{i}] = new #{c}", lambda lst: lst.__setitem__(i, item))
+
+    def swap(b, c):
+        if n < 2:
+            return None
+        i = b % n
+        j = (i + 1 + (b // n) % (n - 1)) % n
+
+        def op(lst):
+            lst[i], lst[j] = lst[j], lst[i]
+
+        return run(f": [{i}], [{j}] = [{j}], [{i}]", op)
+
+    fns = [append, extend, iadd, pop_last, pop, remove, reverse, sort, imul, setslice, delslice, setext, delext, clear, setneg, swap]
+    assert len(fns) == len(LIST_METHODS)
+    return list(zip(LIST_METHODS, fns))
+
+
+# ---------------------------------------------------------------------------------------------
 # observing canvases
 
 
@@ -1487,11 +1714,13 @@ class Run:
                 raise _Stop("twins-diverged")
             _count("op:mouse-handled" if ra else "op:mouse-unhandled")
             return True
-        if kind in ("mut", "again", "lb", "probe"):
+        if kind in ("mut", "again", "lb", "probe", "list"):
             na, _nb = self.nodes_pair()
-            if kind in ("lb", "probe"):
-                # addressed to the j-th ListBox / the j-th probe leaf of the tree: ["lb" | "probe", j, a, b, c]
-                cls = urwid.ListBox if kind == "lb" else Probe
+            if kind in ("lb", "probe", "list"):
+                # addressed to the j-th ListBox / the j-th probe leaf of the tree: ["lb" | "probe", j, a, b, c];
+                # ["list", j, m, b, c]: list method LIST_METHODS[m] on the contents / walker of the j-th Pile, Columns,
+                # GridFlow or ListBox
+                cls = {"lb": urwid.ListBox, "probe": Probe, "list": LIST_BEARING}[kind]
                 lbs = [i for i, (w, _m, _d) in enumerate(na) if isinstance(w, cls)]
                 if not lbs:
                     return False
@@ -1512,17 +1741,22 @@ class Run:
             def go(world):
                 w, mode, _d = live_nodes(world.root, self.mode)[n]
                 spell = {}
-                M = mutators(w, mode, ser, enc, lambda slot, k: build_spec(new_spec(slot, k, ser), enc, world.rec), shown_size, spell)
+                if kind == "list":
+                    M = list_ops(w, mode, lambda slot, k, t: build_spec(new_spec(slot, k, ser + 100 * t), enc, world.rec))
+                else:
+                    M = mutators(w, mode, ser, enc, lambda slot, k: build_spec(new_spec(slot, k, ser), enc, world.rec), shown_size, spell)
                 if not M:
                     return None
                 name, fn = M[a % len(M)]
                 # the quotient chooses among the documented spellings of the operation (0, what shrinking tends to
                 # and what the committed replays have: the first one listed)
                 spell["v"] = a // len(M)
-                info["name"] = f"{type(w).__name__}.{name}"
+                info["name"] = f"{type(w).__name__}.{'list ' if kind == 'list' else ''}{name}"
                 r = fn(b, c)
                 if "used" in spell and r is not None:
                     info["spelling"] = f"{type(w).__name__}.{spell['used']}"
+                if kind == "list":
+                    return None if r is None else f"{type(w).__name__}.{r}"
                 return None if r is None else f"{type(w).__name__}.{name}({r})"
 
             self.trace.append(f"{ser}:mutate node {n} {type(na[n][0]).__name__} #{a}")
@@ -1542,7 +1776,7 @@ class Run:
             _count(f"mut:{info['name']}")
             if info.get("spelling", info["name"]) != info["name"]:
                 _count(f"spelling:{info['spelling']}")
-            if n != 0 and (si, focus) in self.rendered and not op[0].startswith("~"):
+            if (n != 0 or kind == "list") and (si, focus) in self.rendered and not op[0].startswith("~"):
                 self.nt = True
             return True
         raise AssertionError(op)
@@ -1614,6 +1848,9 @@ _op = st.one_of(
     st.tuples(st.just("lb"), st.integers(0, 3), _arg, _arg, _arg),
     st.tuples(st.just("probe"), st.integers(0, 5), _arg, _arg, _arg),
     st.tuples(st.just("probe"), st.integers(0, 5), _arg, _arg, _arg),
+    # a list method / operator on the contents of the j-th Pile / Columns / GridFlow or the walker of the j-th ListBox
+    st.tuples(st.just("list"), st.integers(0, 5), st.integers(0, len(LIST_METHODS) - 1), _arg, _arg),
+    st.tuples(st.just("list"), st.integers(0, 5), st.integers(0, len(LIST_METHODS) - 1), _arg, st.integers(0, 7)),
     st.tuples(st.just("render"), _n, _si, st.booleans()),
     st.tuples(st.just("rows"), _n, _si, st.booleans()),
     st.tuples(st.just("drop")),
@@ -1636,6 +1873,9 @@ _pattern = st.one_of(
     # 'last' policy), another view, then a change of that same node
     st.tuples(_n, _si, st.booleans(), _vw, _ag3).map(
         lambda t: [["render", t[0], t[1], t[2]], ["view", *t[3]], ["mut", t[0], *t[4]]]),
+    # two list edits of one container / walker, the first without a redraw
+    st.tuples(st.integers(0, 5), st.integers(0, len(LIST_METHODS) - 1), _arg, _arg, st.integers(0, len(LIST_METHODS) - 1), _arg, _arg).map(
+        lambda t: [["~list", t[0], t[1], t[2], t[3]], ["list", t[0], t[4], t[5], t[6]]]),
 )
 
 
@@ -1719,10 +1959,81 @@ def _classes(case):
     return sorted(set(out))
 
 
+# ---------------------------------------------------------------------------------------------
+# deterministic sweep: every list method x every argument shape x every length and focus position
+
+
+def _sweep_leaf(i):
+    if i % 2:
+        return {"cls": "Edit", "caption": "", "text": f"e{i}", "multiline": False, "align": "left", "wrap": "space", "pos": 0}
+    return _text_spec(f"t{i}")
+
+
+def _sweep_tree(kind, n, f):
+    """(root mode, spec) of a container of n distinct leaves (Text / Edit alternating) with the focus on item f"""
+    leaves = [_sweep_leaf(i) for i in range(n)]
+    if kind == "pile":
+        return "flow", {"cls": "Pile", "items": [{"opt": ["pack", None], "w": x} for x in leaves], "focus": f}
+    if kind == "pile-box":
+        fill = lambda x: {"cls": "Filler", "w": x, "height": "pack", "valign": "top", "min_height": None, "top": 0, "bottom": 0}  # noqa: E731
+        return "box", {"cls": "Pile", "items": [{"opt": ["weight", 1], "w": fill(x)} for x in leaves], "focus": f}
+    if kind == "columns":
+        return "flow", {"cls": "Columns", "items": [{"opt": ["given", 3], "w": x, "box": False} for x in leaves],
+                        "dividechars": 1, "min_width": 1, "focus": f}
+    if kind == "gridflow":
+        return "flow", {"cls": "GridFlow", "cells": leaves, "cell_width": 3, "h_sep": 1, "v_sep": 0, "align": "left", "focus": f}
+    return "box", {"cls": "ListBox", "items": leaves, "focus": f, "walker": kind}
+
+
+def _sweep_args(n, max_perms):
+    """(method index, b, c) covering each method's argument domain for a list of n items (see list_ops for the decoding)"""
+    out = []
+
+    def add(name, bc):
+        out.extend((LIST_METHODS.index(name), b, c) for b, c in bc)
+
+    pairs = [(i, j) for i in range(n + 1) for j in range(i, n + 1)]
+    add("append", [(0, c) for c in range(3)])
+    add("extend", [(k, 0) for k in range(3)])
+    add("+=", [(k, 1) for k in range(3)])
+    add("pop()", [(0, 0)])
+    add("pop(i)", [(i, c) for i in range(n) for c in (0, 1)])
+    add("remove", [(i, 0) for i in range(n)])
+    add("reverse", [(0, 0)])
+    add("sort", [(p % 48, 2 * (p // 48) + r) for p in range(min(math.factorial(n), max_perms)) for r in (0, 1)])
+    add("*=", [(0, 0), (1, 0)])
+    add("[i:j]=", [(i + (n + 1) * (j - i), c) for i, j in pairs for c in range(3)] + [(i + (n + 1) * (j - i), 3) for i, j in pairs if j - i >= 2])
+    add("del [i:j]", [(i + (n + 1) * (j - i), 0) for i, j in pairs if j > i])
+    add("[ext. slice]=", [(k, c) for k in range(len(EXT_SLICES)) if range(n)[EXT_SLICES[k]] for c in (0, 1)])
+    add("del [ext. slice]", [(k, 0) for k in range(len(EXT_SLICES)) if range(n)[EXT_SLICES[k]]])
+    add("clear", [(0, 0)])
+    add("[-i]=", [(i, 0) for i in range(n)])
+    add("swap", [(i + n * d, 0) for i in range(n) for d in range(n - 1)])
+    return out
+
+
+def _list_sweep(max_n, max_perms):
+    """hist cases: a container / ListBox of n <= max_n distinct items with the focus on item f, bare (rendered with and
+    without focus) or inside a LineBox (the ancestor that displays it), rendered, then ONE list edit, then rendered again"""
+    box = lambda x: {"cls": "LineBox", "w": x, "title": "", "title_align": "center", "drop": []}  # noqa: E731
+    for kind in ("pile", "columns", "gridflow", "SimpleFocusListWalker", "SimpleListWalker", "pile-box"):
+        for n in range(0 if kind in ("gridflow", "SimpleFocusListWalker", "SimpleListWalker") else 1, max_n + 1):
+            for f in range(max(n, 1)):
+                mode, tree = _sweep_tree(kind, n, f)
+                for wrap, vfocus in ((False, True), (False, False), (True, True)):
+                    for m, b, c in _sweep_args(n, max_perms):
+                        yield {"enc": "utf-8", "mode": mode, "spec": box(tree) if wrap else tree, "sizes": [[14, 6], [9, 4]],
+                               "hold": "all", "plant": [], "ops": [["view", 0, vfocus], ["list", 0, m, b, c]]}
+
+
 def shard(ctx):
     global _CTX
     _CTX = ctx
     try:
+        ctx.sweep("hist", _list_sweep(ctx.scale(4, 5), ctx.scale(24, 120)), nontrivial=lambda c: False,
+                  classify=lambda c: [f"sweep:list:{LIST_METHODS[c['ops'][1][2]]}"], exhaustive_name="list-methods")
+        if ctx.failure is not None:
+            return
         ctx.given("hist", _cases(ctx.scale(3, 4), ctx.scale(25, 60)), ctx.scale(500, 5000),
                   nontrivial=lambda c: False, classify=_classes)
     finally:
@@ -1959,7 +2270,7 @@ def _has_uncached_widget(case):
         return True
     if any(k >= 40 for _n, k in case.get("plant", [])):
         return True
-    return any(o[0].lstrip("~") in ("mut", "again", "lb") and max(o[-2:]) >= 40 for o in case["ops"])
+    return any(o[0].lstrip("~") in ("mut", "again", "lb", "list") and max(o[-2:]) >= 40 for o in case["ops"])
 
 
 KNOWN = {
